@@ -65,6 +65,15 @@ package rules
 //   closure local, V3 helper methods, V4 handler via method values, V5 error wrappers + differentKind, V6 writer
 //   split with string parameter and named result, V7p version handed down by the handler under the lock; the
 //   mutants V1m V2m V3m V3n V4m V4n V5m V5n V5o V6m V6n V7n on those shapes are all still reported.
+// Second iteration (refactorings r5..r8 silent): R-C18-2 follows the table insertion into a helper that is handed the
+//   new mutex and the name (rememberMutex(name, m)); R-C18-1 carries facts across `&x` pointer parameters and through a
+//   local flag struct built by a composite literal (closure → method with captured variables as parameters / fields:
+//   c18ptrArgs, the engine forgets address-taken locals and does not rename rule-set facts); pkg/api recognises the lock
+//   wrapper role (a function that runs its func parameter exactly once, with or without the lock held: withLock(fn)) and
+//   analyses the closure from the states reaching the wrapper call (the wrapper's own release-on-every-exit is an
+//   obligation of the wrapper). Variants: W1 flag struct, W2 lookupMutex helper, W3 closure in a local + package-level
+//   wrapper — silent; mutants on the new shapes r6m1-3, r7m1-4, r8m1-6, W1m/n/o, W3m — all reported (W3n, a wrapper
+//   running the closure twice, is undecided).
 // Behaviour-preserving edits that stay silent (exit unchanged): P1 renamed locals + `nil != err || p` + `return err`;
 // P2 Lock without named result (`done` flag, explicit `return e`); P3 Unlock with the etcd error in a local and explicit
 // order; P4 `return m.m.Lock(ctx)` with recover-and-repanic closure; P5 double-checked RWMutex table; P6 sync.Map
@@ -587,9 +596,11 @@ func c18MutexLock(c *core.Ctx, t *types.Named, f *flow.Func) map[*types.Var]bool
 			st.Set(c18evEtcd, flow.True)
 		}
 	}
+	ptrs := &c18ptrArgs{f: f, track: track}
 	res := analyze(c, f, flow.Config{
-		NoHavoc: true,
-		Inline:  inlineSamePkg(f),
+		NoHavoc:  true,
+		Inline:   inlineSamePkg(f),
+		OnInline: ptrs.onInline,
 		MayPanic: func(call *ast.CallExpr, callee types.Object) bool {
 			target, _, _ := c18target(pkg, call)
 			return c18etcdOp(target) != ""
@@ -602,6 +613,7 @@ func c18MutexLock(c *core.Ctx, t *types.Named, f *flow.Func) map[*types.Var]bool
 			track.note(f, call, deferred, opaque)
 		},
 		OnNode: func(st *flow.State, n ast.Node) {
+			ptrs.onNode(st, n)
 			// `return x` in a function with a named error result assigns the result before
 			// the deferred functions run
 			ret, ok := n.(*ast.ReturnStmt)
@@ -625,6 +637,9 @@ func c18MutexLock(c *core.Ctx, t *types.Named, f *flow.Func) map[*types.Var]bool
 	for _, ex := range res.Exits {
 		st := ex.State
 		held := st.Is(c18evLocal, flow.True)
+		if os.Getenv("C18_DEBUG") == "2" {
+			fmt.Fprintf(os.Stderr, "Lock exit kind=%d facts=%v\n   trace=%v\n", ex.Kind, st.Facts(), st.Trace())
+		}
 		if ex.Kind == flow.ExitPanic {
 			pan.n++
 			if held && pan.bad == nil {
@@ -719,6 +734,217 @@ func c18MutexLock(c *core.Ctx, t *types.Named, f *flow.Func) map[*types.Var]bool
 			"the etcd session mutex is acquired before the process-local lock: a second goroutine of the same session passes the etcd Lock at once (already owner) and the key is deleted by the first Unlock while the second still holds the lock", witness(badAt)...)
 	}
 	return fields
+}
+
+// c18ptrArgs carries the facts about a local across a call that is handed its address
+// (`defer m.releaseOnFailure(&panicked, &err)`: a closure turned into a method, the captured variables
+// became pointer parameters). The engine forgets what it knows about x when &x is taken; the value x
+// has at that moment is kept as a snapshot until x is assigned again.
+type c18ptrArgs struct {
+	f      *flow.Func
+	track  *c18opaqueTracker
+	seeded map[string]bool // fact keys installed by seedStruct (the engine does not rename them at calls)
+}
+
+const c18snap = "ev:c18:snap:"
+
+func (p *c18ptrArgs) keys(g *flow.Func, x ast.Expr) []string {
+	k, _ := g.Atom(x)
+	return []string{k, g.NilKey(x)}
+}
+
+// onNode: snapshots at `&x` operands, dropped at assignments to x.
+func (p *c18ptrArgs) onNode(st *flow.State, n ast.Node) {
+	f := p.f
+	drop := func(e ast.Expr) {
+		if id, ok := ast.Unparen(e).(*ast.Ident); ok {
+			for _, k := range p.keys(f, id) {
+				st.Set(c18snap+k, flow.Unknown)
+			}
+		}
+	}
+	switch s := n.(type) {
+	case *ast.AssignStmt:
+		for i, l := range s.Lhs {
+			drop(l)
+			if sel, ok := ast.Unparen(l).(*ast.SelectorExpr); ok {
+				// a field of a local flag struct is assigned: what was seeded from its literal is stale
+				for _, k := range p.keys(f, sel) {
+					st.Set(k, flow.Unknown)
+				}
+			}
+			if len(s.Lhs) == len(s.Rhs) {
+				p.seedStruct(st, l, s.Rhs[i])
+			}
+			// the engine does not track a variable whose address was taken: keep the shadow value
+			// of constant assignments (`panicked = false`, `err = nil`)
+			id, ok := ast.Unparen(l).(*ast.Ident)
+			if !ok || len(s.Lhs) != len(s.Rhs) || (s.Tok != token.ASSIGN && s.Tok != token.DEFINE) {
+				continue
+			}
+			ks := p.keys(f, id)
+			r := ast.Unparen(s.Rhs[i])
+			if tv, ok := f.Info.Types[r]; ok && tv.Value != nil {
+				switch tv.Value.ExactString() {
+				case "true":
+					st.Set(c18snap+ks[0], flow.True)
+				case "false":
+					st.Set(c18snap+ks[0], flow.False)
+				}
+			} else if rid, ok := r.(*ast.Ident); ok && rid.Name == "nil" {
+				if _, isNil := f.Info.Uses[rid].(*types.Nil); isNil {
+					st.Set(c18snap+ks[1], flow.True)
+				}
+			}
+		}
+	case *ast.IncDecStmt:
+		drop(s.X)
+	}
+	ast.Inspect(n, func(x ast.Node) bool {
+		if _, ok := x.(*ast.FuncLit); ok {
+			return false
+		}
+		u, ok := x.(*ast.UnaryExpr)
+		if !ok || u.Op != token.AND {
+			return true
+		}
+		if id, ok := ast.Unparen(u.X).(*ast.Ident); ok {
+			for _, k := range p.keys(f, id) {
+				if v := st.Get(k); v != flow.Unknown {
+					st.Set(c18snap+k, v)
+				}
+			}
+		}
+		return true
+	})
+}
+
+// seedStruct records the constant flag fields of a local struct value built by a composite literal
+// (`a := &attempt{panicked: true}`: the captured variables of a closure became fields of a struct that is
+// handed to a method): bool fields and nil-able fields, zero values for the fields not mentioned.
+func (p *c18ptrArgs) seedStruct(st *flow.State, lhs, rhs ast.Expr) {
+	f := p.f
+	id, ok := ast.Unparen(lhs).(*ast.Ident)
+	if !ok || id.Name == "_" {
+		return
+	}
+	r := ast.Unparen(rhs)
+	if u, ok := r.(*ast.UnaryExpr); ok && u.Op == token.AND {
+		r = ast.Unparen(u.X)
+	}
+	cl, ok := r.(*ast.CompositeLit)
+	if !ok {
+		return
+	}
+	tv, ok := f.Info.Types[cl]
+	if !ok || tv.Type == nil {
+		return
+	}
+	stt, ok := tv.Type.Underlying().(*types.Struct)
+	if !ok {
+		return
+	}
+	given := map[string]ast.Expr{}
+	for _, el := range cl.Elts {
+		kv, ok := el.(*ast.KeyValueExpr)
+		if !ok {
+			return // positional literal: not followed
+		}
+		if k, ok := kv.Key.(*ast.Ident); ok {
+			given[k.Name] = kv.Value
+		}
+	}
+	for i := 0; i < stt.NumFields(); i++ {
+		fld := stt.Field(i)
+		sel := &ast.SelectorExpr{X: id, Sel: ast.NewIdent(fld.Name())}
+		val, mentioned := given[fld.Name()]
+		switch t := fld.Type().Underlying().(type) {
+		case *types.Basic:
+			if t.Info()&types.IsBoolean == 0 {
+				continue
+			}
+			v := flow.False
+			if mentioned {
+				vt, ok := f.Info.Types[val]
+				if !ok || vt.Value == nil {
+					continue
+				}
+				if vt.Value.ExactString() == "true" {
+					v = flow.True
+				}
+			}
+			p.seed(st, f.VarKey(sel), v)
+		case *types.Pointer, *types.Interface, *types.Map, *types.Slice:
+			if !mentioned {
+				p.seed(st, f.NilKey(sel), flow.True)
+			} else if vid, ok := ast.Unparen(val).(*ast.Ident); ok && vid.Name == "nil" {
+				p.seed(st, f.NilKey(sel), flow.True)
+			}
+		}
+	}
+}
+
+func (p *c18ptrArgs) seed(st *flow.State, key string, v flow.Val) {
+	if p.seeded == nil {
+		p.seeded = map[string]bool{}
+	}
+	p.seeded[key] = true
+	st.Set(key, v)
+}
+
+// onInline: *param ↔ x for every parameter bound to &x; seeded struct facts follow a parameter bound
+// to the struct variable.
+func (p *c18ptrArgs) onInline(st *flow.State, ev *flow.InlineEvent) {
+	f := p.f
+	for i, prm := range ev.Params {
+		if i >= len(ev.Args) || prm == nil {
+			continue
+		}
+		arg := ast.Unparen(ev.Args[i])
+		if aid, ok := arg.(*ast.Ident); ok && ev.Enter {
+			from, to := f.Render(aid)+".", ev.Fn.Render(prm)+"."
+			for k := range p.seeded {
+				if v := st.Get(k); v != flow.Unknown && strings.Contains(k, from) {
+					nk := strings.Replace(k, from, to, 1)
+					if st.Get(nk) == flow.Unknown {
+						p.seed(st, nk, v)
+					}
+				}
+			}
+		}
+		u, isAddr := arg.(*ast.UnaryExpr)
+		if !isAddr || u.Op != token.AND {
+			if tv, ok := f.Info.Types[arg]; ok && tv.Type != nil && ev.Enter && p.track != nil {
+				if pt, isPtr := tv.Type.Underlying().(*types.Pointer); isPtr {
+					if _, toStruct := pt.Elem().Underlying().(*types.Struct); !toStruct {
+						p.track.opaque = append(p.track.opaque, f.Pos(ev.Call.Pos())+" pointer argument "+f.Render(arg)+" is not followed")
+					}
+				}
+			}
+			continue
+		}
+		id, ok := ast.Unparen(u.X).(*ast.Ident)
+		if !ok {
+			if ev.Enter && p.track != nil {
+				p.track.opaque = append(p.track.opaque, f.Pos(ev.Call.Pos())+" address argument "+f.Render(arg)+" is not followed")
+			}
+			continue
+		}
+		star := &ast.StarExpr{X: prm}
+		from, to := p.keys(f, id), p.keys(ev.Fn, star)
+		if !ev.Enter {
+			from, to = to, from
+		}
+		for j := range from {
+			v := st.Get(from[j])
+			if v == flow.Unknown && ev.Enter {
+				v = st.Get(c18snap + from[j])
+			}
+			if v != flow.Unknown && (ev.Enter || st.Get(to[j]) == flow.Unknown) {
+				st.Set(to[j], v)
+			}
+		}
+	}
 }
 
 // c18declOrLitOf returns the innermost function (declaration or literal) of f's package that
@@ -985,6 +1211,22 @@ func c18storedInTable(v ssa.Value, p *ssa.Parameter, seen map[ssa.Value]bool, de
 			if c18isSyncMapMethod(x.Call.StaticCallee(), "Store", "LoadOrStore", "Swap") && len(x.Call.Args) >= 3 && x.Call.Args[2] == v &&
 				c18dependsOn(x.Call.Args[1], p, map[ssa.Value]bool{}, 0) {
 				return true
+			}
+			// handed to a same-module helper that records its parameter under a key which is, at this
+			// call, computed from the lock name (rememberMutex(name, m))
+			if callee := x.Call.StaticCallee(); callee != nil && callee.Pkg != nil && strings.HasPrefix(callee.Pkg.Pkg.Path(), Mod) &&
+				len(callee.Blocks) > 0 && depth < 3 && len(callee.Params) == len(x.Call.Args) {
+				for i, a := range x.Call.Args {
+					if a != v {
+						continue
+					}
+					for j, kp := range callee.Params {
+						if j != i && c18dependsOn(x.Call.Args[j], p, map[ssa.Value]bool{}, 0) &&
+							c18storedInTable(callee.Params[i], kp, map[ssa.Value]bool{}, depth+1) {
+							return true
+						}
+					}
+				}
 			}
 		case *ssa.MakeInterface:
 			if c18storedInTable(x, p, seen, depth+1) {
